@@ -287,6 +287,90 @@ Proof.
   exact (to_dense_go d []).
 Qed.
 
+(* from_parts on the pairs (0, d0), (1, d1), ... builds exactly what from_dense builds *)
+Lemma from_dense_at_keys : forall d i pv, In pv (from_dense_at i d) -> i <= fst pv.
+Proof.
+  induction d as [|v r IH]; intros i pv H; cbn [from_dense_at] in H; [destruct H|].
+  destruct (f32_is_zero v).
+  - specialize (IH _ _ H). lia.
+  - destruct H as [<-|H]; [cbn; lia|]. specialize (IH _ _ H). lia.
+Qed.
+
+Lemma sort_from_dense_at : forall d i, sort_pairs (from_dense_at i d) = from_dense_at i d.
+Proof.
+  induction d as [|v r IH]; intros i; cbn [from_dense_at]; [reflexivity|].
+  destruct (f32_is_zero v); [apply IH|].
+  unfold sort_pairs. cbn [fold_right]. fold (sort_pairs (from_dense_at (i + 1) r)). rewrite IH.
+  destruct (from_dense_at (i + 1) r) as [|y l] eqn:E; [reflexivity|].
+  cbn [ins_pair fst]. assert (K : i + 1 <= fst y) by (apply (from_dense_at_keys r (i + 1)); rewrite E; left; reflexivity).
+  destruct (N.leb_spec i (fst y)); [reflexivity|lia].
+Qed.
+
+Lemma filter_combine_seq : forall (d : list N) i,
+  filter (fun pv => negb (f32_is_zero (snd pv))) (combine (N_seq_from i (length d)) d) = from_dense_at i d.
+Proof.
+  induction d as [|v r IH]; intros i; [reflexivity|].
+  cbn [length N_seq_from combine filter snd from_dense_at]. rewrite IH.
+  replace (N.succ i) with (i + 1) by lia. destruct (f32_is_zero v); reflexivity.
+Qed.
+
+Lemma combine_seq_in_range : forall (d : list N) i pv, In pv (combine (N_seq_from i (length d)) d) -> fst pv < i + N.of_nat (length d).
+Proof.
+  induction d as [|v r IH]; intros i pv H; [destruct H|].
+  cbn [length N_seq_from combine] in H. destruct H as [<-|H]; [cbn [fst length]; lia|].
+  specialize (IH _ _ H). cbn [length]. lia.
+Qed.
+
+Theorem from_parts_dense : forall d : list N,
+  from_parts (N.of_nat (length d)) (N_seq_from 0 (length d)) d = Some (from_dense d).
+Proof.
+  intros d. unfold from_parts.
+  assert (E : existsb (fun pv => N.leb (N.of_nat (length d)) (fst pv)) (combine (N_seq_from 0 (length d)) d) = false).
+  { destruct (existsb _ _) eqn:X; [|reflexivity]. apply existsb_exists in X. destruct X as [pv [I L]].
+    apply N.leb_le in L. apply combine_seq_in_range in I. lia. }
+  rewrite E, filter_combine_seq, sort_from_dense_at. reflexivity.
+Qed.
+
+Theorem from_parts_roundtrip : forall d : list N,
+  option_map to_dense (from_parts (N.of_nat (length d)) (N_seq_from 0 (length d)) d) = Some (map norm_zero d).
+Proof. intros d. rewrite from_parts_dense. cbn [option_map]. rewrite sparse_roundtrip. reflexivity. Qed.
+
+(* the forged-input decoder is total and length-preserving: whatever the positions, the result has exactly
+   `dimension` entries (no out-of-bounds write, no growth) *)
+Lemma set_at_length : forall l i v, length (set_at l i v) = length l.
+Proof. induction l as [|h t IH]; intros [|i] v; cbn; auto. Qed.
+Lemma repeatN_length x n : length (repeatN x n) = n.
+Proof. induction n; cbn; auto. Qed.
+Theorem fsparse_decode_length : forall dim ps vs, length (fsparse_decode dim ps vs) = N.to_nat dim.
+Proof.
+  intros dim ps vs. unfold fsparse_decode.
+  assert (F : forall l acc, length (fold_left (fun acc pv => if N.ltb (fst pv) dim then set_at acc (N.to_nat (fst pv)) (snd pv) else acc) l acc) = length acc).
+  { induction l as [|pv l IH]; intros acc; cbn [fold_left]; [reflexivity|]. rewrite IH. destruct (N.ltb (fst pv) dim); [apply set_at_length|reflexivity]. }
+  rewrite F. apply repeatN_length.
+Qed.
+(* on the positions a well-formed encoder produces it is to_dense *)
+Theorem fsparse_decode_wellformed : forall d,
+  fsparse_decode (N.of_nat (length d)) (map fst (from_dense_at 0 d)) (map snd (from_dense_at 0 d)) = map norm_zero d.
+Proof.
+  intros d. rewrite <- sparse_roundtrip. unfold fsparse_decode, to_dense, from_dense. cbn [fst snd].
+  assert (C : combine (map fst (from_dense_at 0 d)) (map snd (from_dense_at 0 d)) = from_dense_at 0 d).
+  { generalize (from_dense_at 0 d). induction l as [|[a b] l IH]; cbn; [reflexivity|]. rewrite IH. reflexivity. }
+  rewrite C.
+  assert (R : forall l, (forall pv, In pv l -> fst pv < N.of_nat (length d)) -> forall acc,
+     fold_left (fun acc pv => if N.ltb (fst pv) (N.of_nat (length d)) then set_at acc (N.to_nat (fst pv)) (snd pv) else acc) l acc
+     = fold_left (fun acc pv => set_at acc (N.to_nat (fst pv)) (snd pv)) l acc).
+  { induction l as [|pv l IH]; intros H acc; cbn [fold_left]; [reflexivity|].
+    assert (L : fst pv < N.of_nat (length d)) by (apply H; left; reflexivity).
+    apply N.ltb_lt in L. rewrite L. apply IH. intros q I. apply H. right. exact I. }
+  apply R. intros pv I.
+  assert (K : forall (d0 : list N) i pv, In pv (from_dense_at i d0) -> fst pv < i + N.of_nat (length d0)).
+  { induction d0 as [|v r IH]; intros i q Hq; cbn [from_dense_at] in Hq; [destruct Hq|]. cbn [length].
+    destruct (f32_is_zero v).
+    - specialize (IH _ _ Hq). lia.
+    - destruct Hq as [<-|Hq]; [cbn; lia|]. specialize (IH _ _ Hq). lia. }
+  specialize (K d 0 pv I). lia.
+Qed.
+
 (* ================================================================= frames *)
 Lemma de_be32_be32 n : n < W32 -> de_be32 (be32 n) = n.
 Proof. intros H. unfold de_be32, be32, W32 in *. lia. Qed.
